@@ -144,6 +144,16 @@ def run_case(case, ctx):
         n[int(rng.integers(d))] = int(rng.integers(64, 301))
         ctx.event('one-long-mode')
     Y, rt = gen.exact_rank_tt(rng, n, rho)
+    if len(n) >= 4 and rho >= 2 and rng.random() < 0.3:
+        # rank profiles that fall and rise again along the chain (3, 2, 3)
+        rt = list(rt)
+        for k in range(1, len(n)):
+            rt[k] = int(rng.integers(1, rt[k] + 1))
+        rt[int(rng.integers(1, len(n)))] = min(rho, rt[1] if False else rho)
+        for k in range(1, len(n)):       # keep what the unfoldings can carry
+            rt[k] = int(min(rt[k], np.prod(n[:k]), np.prod(n[k:])))
+        Y = gen.cores(rng, n, rt, 'normal')
+        ctx.event('non-uniform-rank-profile')
     scale = 10.0 ** rng.uniform(-3, 3)
     tiny = False
     if rng.random() < 0.15:
@@ -157,12 +167,26 @@ def run_case(case, ctx):
     T = np.asarray(ref.dense_ld(Y), dtype=float)
     sseed = int(rng.integers(1 << 30))
     seed_arg = sseed if rng.random() < 0.7 else np.random.default_rng(sseed)
+    if rng.random() < 0.5:
+        # history: the same grid and seed asked for ANOTHER expected rank first
+        m_other = int(rng.integers(1, m + 3))
+        if m_other != m and m_other <= min(n):
+            teneva.sample_tt(n, m_other, sseed)
+            ctx.event('sample_tt-other-expected-rank-first')
     I, idx, idx_many = teneva.sample_tt(n, m, seed_arg)
     I = np.asarray(I)
     ok = I.ndim == 2 and I.shape[1] == d and np.all(I >= 0) and \
         np.all(I < np.array(n))
     if not ctx.check('wellformed', bool(ok), 'sample_tt returned indices '
             'outside the tensor'):
+        return
+    # the sample set is the one for THIS expected rank: m suffixes per inner
+    # block (mode sizes are >= m, so the Latin hypercubes have m rows)
+    want_many = [m] * (d - 1) + [1]
+    if not ctx.check('wellformed', [int(x) for x in idx_many] == want_many
+            and len(idx) == d + 1 and int(idx[-1]) == len(I), lambda:
+            f'sample_tt(n, {m}): idx_many = {[int(x) for x in idx_many]}, '
+            f'expected {want_many} (sample set of another expected rank?)'):
         return
     y = T[tuple(I.T)]
     cap = [1e12, rho, rho + 1, m][int(rng.integers(4))]
